@@ -84,6 +84,9 @@ def plan(tier, seed, scale=1.0):
     for n in values.boundary_lens():
         for fam, spec in values.len_specs(n):
             units.append({'kind': 'len', 'family': fam, 'spec': spec, 'n': n, 'tier': tier, 'seed': seed})
+    for n in values.BIG_LENS:
+        for fam, spec in values.big_specs(n):
+            units.append({'kind': 'len', 'family': fam, 'spec': spec, 'n': n, 'tier': tier, 'seed': seed, 'big': True})
     nseq = int((20000 if tier == 'quick' else 2000000) * scale)
     for i in range(0, nseq, 2000 if tier == 'quick' else 20000):
         units.append({'kind': 'sequences', 'seed': seed, 'first': i, 'count': min(2000 if tier == 'quick' else 20000, nseq - i)})
@@ -221,8 +224,21 @@ def check_alt_encoding(acc, spec, v, enc, picked, case):
 
 
 def cut_points(n, header, tier, rng, full=False, limit=4096, container=False):
-    if n <= limit or full:
+    if n <= limit or (full and n <= 2 ** 17):
         return range(n)
+    if n > 2 ** 17:
+        # large payloads: the header, both ends, and the neighbourhood of every multiple of 64 KiB of the payload
+        # (readers that work in chunks have their boundaries there), plus seeded interior offsets
+        pts = set(range(min(n, header + 8)))
+        pts.update(range(max(0, n - 40), n))
+        for m in range(0, n, 65536):
+            for d in (-2, -1, 0, 1, 2):
+                for base in (m, m + header):
+                    if 0 <= base + d < n:
+                        pts.add(base + d)
+        for _ in range(64):
+            pts.add(rng.randrange(n))
+        return sorted(pts)
     edge = 16 if (container and tier == 'quick') else 64
     pts = set(range(min(n, header + edge)))
     pts.update(range(max(0, n - edge), n))
@@ -608,6 +624,8 @@ def _run_unit(unit):
         run_value(acc, unit['spec'], unit['tier'], rng, True, full_cuts=full)
         if unit['n'] < 1000:
             run_value(acc, [unit['spec'], 7], unit['tier'], rng, False, nalt=1)   # nested: cut lands inside an inner object
+        if unit.get('big'):
+            acc.probes['encoding_ge_1MiB'] = acc.probes.get('encoding_ge_1MiB', 0) + 1
         acc.samples.append({'kind': 'len', 'family': unit['family'], 'n': unit['n'], 'spec': unit['spec']})
     elif kind == 'random':
         for i in range(unit['first'], unit['first'] + unit['count']):
